@@ -25,7 +25,8 @@ Starts     == IF Q THEN {2} ELSE {1, 4}
 NSteps     == IF Q THEN {4, 12} ELSE {3, 12, 23}
 \* "special": NaN and +/-Inf samples among the numbers (min/max_over_time skip NaN next to a number, sums are poisoned)
 \* "negrise": a rising series that starts below zero (counter functions extrapolate to the zero crossing only for values >= 0)
-Pats       == {"pow2", "zig", "special", "negrise"}
+\* "signed": zeros of either sign and NaNs of two bit patterns next to each other (equal as values, different as bits)
+Pats       == {"pow2", "zig", "special", "negrise", "signed"}
 Fns == <<"sum_over_time", "count_over_time", "min_over_time", "max_over_time", "last_over_time", "present_over_time",
          "changes", "resets", "rate", "increase", "delta", "irate", "idelta", "deriv", "avg_over_time",
          "stddev_over_time", "stdvar_over_time", "sum_over_time", "count_over_time">>
@@ -37,12 +38,13 @@ VARIABLE g
 Init == g \in [lay : Layouts, pat : Pats, rng : Ranges, step : Steps, off : Offsets, at : Ats, start : Starts, n : NSteps]
 Next == UNCHANGED g
 
-Val(pat, u) == IF pat = "pow2" THEN 2 ^ u ELSE IF pat = "negrise" THEN 10 * u - 35 ELSE ((u * 7) % 5) + (IF u % 3 = 0 THEN 10 ELSE 0)
+Val(pat, u) == IF pat = "pow2" THEN 2 ^ u ELSE IF pat = "negrise" THEN 10 * u - 35 ELSE IF pat = "signed" THEN 0 ELSE ((u * 7) % 5) + (IF u % 3 = 0 THEN 10 ELSE 0)
 SmpOf(x) == LET ts == SetToSortSeq({u \in 0..MaxT : x.lay[u] # "-"}, LAMBDA a, b : a < b)
-                SK(u) == IF x.pat # "special" THEN "f" ELSE (CASE u % 4 = 1 -> "nan" [] u % 4 = 2 -> "pinf" [] u % 8 = 3 -> "ninf" [] OTHER -> "f")
+                SK(u) == IF x.pat = "signed" THEN (CASE u % 4 = 0 -> "f" [] u % 4 = 1 -> "nz" [] u % 4 = 2 -> "nan" [] OTHER -> "nan2")
+                         ELSE IF x.pat # "special" THEN "f" ELSE (CASE u % 4 = 1 -> "nan" [] u % 4 = 2 -> "pinf" [] u % 8 = 3 -> "ninf" [] OTHER -> "f")
             IN [i \in 1..Len(ts) |-> Smp(ts[i], IF x.lay[ts[i]] = "f" THEN SK(ts[i]) ELSE "s", Val(x.pat, ts[i]))]
 
-Hash(x) == (x.rng * 7 + (x.off + 3) * 13 + x.step * 17 + x.start * 19 + x.n * 23 + (IF x.pat = "zig" THEN 5 ELSE IF x.pat = "special" THEN 9 ELSE IF x.pat = "negrise" THEN 31 ELSE 0)
+Hash(x) == (x.rng * 7 + (x.off + 3) * 13 + x.step * 17 + x.start * 19 + x.n * 23 + (IF x.pat = "zig" THEN 5 ELSE IF x.pat = "special" THEN 9 ELSE IF x.pat = "negrise" THEN 31 ELSE IF x.pat = "signed" THEN 43 ELSE 0)
             + FoldSet(LAMBDA u, acc : acc + (IF x.lay[u] = "-" THEN 0 ELSE IF x.lay[u] = "f" THEN u + 1 ELSE 3 * (u + 1)), 0, 0..MaxT) * 29)
 FnOf(x) == Fns[Pick(Hash(x) + (Seed % 997) * 131, 1, Len(Fns)) + 1]
 
@@ -81,5 +83,11 @@ Interesting(x) ==
      \/ (r - x.rng \in 0..MaxT /\ x.lay[r - x.rng] # "-")
      \/ (r - x.rng - 1 \in 0..MaxT /\ x.lay[r - x.rng - 1] # "-")
      \/ (\E u \in 0..MaxT : x.lay[u] = "s" /\ u <= r /\ u >= r - x.rng)
-EmitWin == IF (Interesting(g) /\ Pick(Hash(g), 0, Mod) = Seed % Mod) THEN Emit(ScnOf(g)) ELSE TRUE
+\* the patterns with special values are replayed under four of the functions each (what a function makes of a NaN next to
+\* a NaN, of zeros of either sign, of an infinity is a matter of the function)
+FnK(x, k) == Fns[((Pick(Hash(x) + (Seed % 997) * 131, 1, Len(Fns)) + 5 * k) % Len(Fns)) + 1]
+ScnFn(x, fn) == [ScnOf(x) EXCEPT !.plan = <<RFn(fn, <<Metric("m")>>, x.rng, x.off, x.at.k, x.at.v)>>]
+EmitWin == IF (Interesting(g) /\ Pick(Hash(g), 0, Mod) = Seed % Mod)
+           THEN (IF g.pat \in {"special", "signed"} THEN \A k \in 0..3 : Emit(ScnFn(g, FnK(g, k))) ELSE Emit(ScnOf(g)))
+           ELSE TRUE
 =============================================================================
